@@ -444,6 +444,7 @@ static bool exhaustive(const rt::Args &args, rt::Stats &stats, rt::Failure &fail
                 Case c; c.kind = cfg.kind; c.cmp = cfg.cmp; c.dtor = 1;
                 uint64_t x = n;
                 for (int i = 0; i < len; i++) { c.ops.push_back(al[x % A]); x /= A; }
+                rt::watch_tick(&c);
                 rt::Verdict v = args.fork_per_case ? rt::run_forked(args.prop, [&] { return eval_case(c, args); }) : eval_case(c, args);
                 total++;
                 // full text only for the rare recorded ones: hashing every text would dominate the run
@@ -471,6 +472,7 @@ int main(int argc, char **argv) {
     E.from_text = from_text;
     E.default_cases = [](const rt::Args &a) { return a.tier == "thorough" ? 150000L : 6000L; };
     E.exhaustive = exhaustive;
+    E.hang_is_failure = true;
     return rcm::run(argc, argv, E);
 }
 #endif // !FUZZ_TARGET
